@@ -771,7 +771,8 @@ fn gen_keys(rng: &mut Rng, n: usize) -> Vec<String> {
 
 fn gen_members(rng: &mut Rng, size: usize) -> (Vec<u64>, &'static str) {
     let corners = [0u64, 1, 2, u64::MAX, u64::MAX - 1, 1 << 63, (1 << 63) - 1, 1 << 32, (1 << 32) - 1, 255, 256, 65535, 65536];
-    let style = ["dense-from-1", "dense-from-0", "dense-offset", "sparse", "sparse-corners"][rng.gen_range(0..5)];
+    let style = ["dense-from-1", "dense-from-0", "dense-offset", "sparse", "sparse-corners", "stride"][rng.gen_range(0..6)];
+    let stride = [64u64, 256, 1 << 16, 1 << 32][rng.gen_range(0..4)];
     let mut m: BTreeSet<u64> = BTreeSet::new();
     let base = rng.gen::<u64>() >> rng.gen_range(1..60);
     let mut i = 0u64;
@@ -780,6 +781,8 @@ fn gen_members(rng: &mut Rng, size: usize) -> (Vec<u64>, &'static str) {
             "dense-from-1" => i + 1,
             "dense-from-0" => i,
             "dense-offset" => base + i,
+            // ids that agree in their low bits (what any "id mod word size" shortcut would confuse)
+            "stride" => (base % stride).wrapping_add(i.wrapping_mul(stride)),
             "sparse" => rng.gen::<u64>() >> rng.gen_range(0..56),
             _ => {
                 if rng.gen_bool(0.6) {
